@@ -44,7 +44,10 @@ def case_strategy(draw):
                for _ in range(nexc)]
         cols.append({"kind": kind, "exc": exc})
     dtype = draw(st.sampled_from([None, None, "int64", "int32", "int16", "float64", "float32"]))
-    return {"phased": phased, "ploidy": ploidy, "n": n, "p": p, "cols": cols, "dtype": dtype}
+    # allele calls overwritten in place on the same object after the statistics have been queried once
+    edits = draw(st.lists(st.tuples(st.integers(0, 10 ** 6), st.integers(0, 10 ** 6), st.integers(0, 10 ** 6), st.integers(0, 1),
+                                    st.sampled_from(["mat", "setitem", "column"])).map(list), max_size=3))
+    return {"phased": phased, "ploidy": ploidy, "n": n, "p": p, "cols": cols, "dtype": dtype, "edits": edits}
 
 
 def build_calls(case):
@@ -73,12 +76,44 @@ def _close(a, b, tol):
 def check_stats(case, ctx):
     calls = build_calls(case)
     m, n, p = calls.shape
-    d = m * n
     dos = calls.sum(0).astype("int8")           # (n,p) dosage
     if case["phased"]:
         g = DensePhasedGenotypeMatrix(mat=calls.copy())
     else:
         g = DenseGenotypeMatrix(mat=dos.copy(), ploidy=m)
+    evaluate(case, ctx, g, calls)
+    edits = case.get("edits") or []
+    if edits:
+        # the same object, its allele calls overwritten in place: every statistic must describe the calls it holds NOW
+        ctx.label("queried_again_after_in_place_edit")
+        for (a, b, c, v, how) in edits:
+            ph, i, j = a % m, b % n, c % p
+            if how == "column":
+                calls[:, :, j] = v
+            else:
+                calls[ph, i, j] = v
+            if case["phased"]:
+                if how == "setitem":
+                    g[ph, i, j] = v
+                elif how == "column":
+                    g.mat[:, :, j] = v
+                else:
+                    g.mat[ph, i, j] = v
+            else:
+                newdos = calls.sum(0).astype("int8")
+                if how == "setitem":
+                    g[i, j] = newdos[i, j]
+                elif how == "column":
+                    g.mat[:, j] = newdos[:, j]
+                else:
+                    g.mat[i, j] = newdos[i, j]
+        evaluate(case, ctx, g, calls)
+
+
+def evaluate(case, ctx, g, calls):
+    m, n, p = calls.shape
+    d = m * n
+    dos = calls.sum(0).astype("int8")           # (n,p) dosage
     snap = g.mat.copy()
     dt = case["dtype"]
     isint = dt is not None and dt.startswith("int")
@@ -209,10 +244,24 @@ def check_stats(case, ctx):
         ctx.check(_close(float(g.meh()), float(u.meh()), 1e-15 * max(1, p) * m), "projection.meh")
 
 
+def huge_cases(tier):
+    """population sizes at which an absolute or relative tolerance (1e-8 / 1e-5) would swallow a single chromosome copy"""
+    out = []
+    for phased in (False, True):
+        for n in (50001, 60000):
+            out.append({"phased": phased, "ploidy": 2, "n": n, "p": 4, "dtype": None, "edits": [],
+                        "cols": [{"kind": "all1", "exc": [[7, 1, 0]]}, {"kind": "all0", "exc": [[n - 1, 0, 1]]},
+                                 {"kind": "all1", "exc": []}, {"kind": "random", "exc": []}]})
+    return out
+
+
 SUBCHECKS = [
     SubCheck("stats", check_stats, case_strategy(), quick=700, thorough=6000, shards_quick=4,
              rule="generated (phased|unphased, ploidy 1/2/4, n incl. sizes where (1/d)*d!=1, column patterns with "
                   "forced all-0/all-1/one-copy-different loci, dtype); non-trivial = at least one fixed and one "
                   "polymorphic locus; distinct by sha1 of the case",
-             required_labels=("n_in_rounding_set", "fixed_at_1_in_rounding_set", "single_taxon")),
+             required_labels=("n_in_rounding_set", "fixed_at_1_in_rounding_set", "single_taxon", "queried_again_after_in_place_edit")),
+    SubCheck("huge", check_stats, cases=huge_cases, shards_quick=4, shards_thorough=4,
+             rule="finite: 50001 / 60000 diploid taxa, phased and unphased, loci with exactly one chromosome copy different (a frequency "
+                  "within 1e-5 of 0 or 1 that is nevertheless polymorphic), a fixed locus and a mixed locus"),
 ]
